@@ -109,7 +109,7 @@ Proof. unfold retarget, is_learner. destruct (negb (pid o =? pid n0)); reflexivi
 Definition f_add (origin : pmap) (allow : bool) (alloc : list (Z * Z)) (n : peer) : option peer :=
   let o := pm_get origin (pstore n) in
   if negb (is_some o) || (negb allow && negb (olearner o) && is_learner n)
-  then Some (if pid n =? 0 then Peer (pstore n) (alloc_of alloc (pstore n)) (prole n) else n)
+  then Some (if (pid n =? 0) || is_some o then Peer (pstore n) (alloc_of alloc (pstore n)) (prole n) else n)
   else None.
 
 Lemma fold_left_ext_eq {A B} (f g : A -> B -> A) l : (forall a x, f a x = g a x) -> forall a, fold_left f l a = fold_left g l a.
